@@ -5,7 +5,7 @@ from vlib.core import Case
 
 ID = "C16"
 LEAN_MODULE = "Ctrmml.Properties.C16"
-THEOREMS = ["C16_export_history_independent", "C16_compile_defined", "C16_export_idempotent_on_song", "C16_compile_frame"]
+THEOREMS = ["C16_export_history_independent", "C16_compile_defined", "C16_export_idempotent_on_song", "C16_compile_frame", "C16_full_from_assumptions"]
 LEVEL = "other"
 STREAM = "hist+pcmtab"
 CHUNK = 6
@@ -119,7 +119,7 @@ def s_straddle(frames, pad, title=0):
 
 
 # (frames, pad, title) found by calibrate(): VGM log end within reserve distance of 100000 / 200000
-STRADDLE = [(85, 0, 0), (86, 0, 0), (87, 0, 0), (88, 3, 0), (172, 0, 0), (173, 5, 10), (174, 0, 0), (86, 10, 256), (87, 20, 100)]
+STRADDLE = [(86, 0, 0), (85, 76, 0), (173, 0, 0), (85, 80, 0), (85, 0, 0), (85, 72, 0), (87, 0, 0), (85, 84, 0), (172, 0, 0), (86, 10, 256), (173, 5, 10), (87, 20, 100)]
 
 
 def calibrate():
@@ -384,37 +384,43 @@ def finding_key(case, impl, judge):
 
 
 def shrink(reqline):
+    """candidates, cheapest first: fewer fill variants (fewer child processes), fewer songs, shorter songs; bounded because one
+    evaluation of a candidate is a whole history run"""
     toks = reqline.split()
     if toks[0] != "hist":
         return
     head = [t for t in toks if not t.startswith(("M:", "C:"))]
     songs = [t for t in toks if t.startswith(("M:", "C:"))]
-    # drop songs
-    for i in range(len(songs)):
-        if len(songs) > 1:
-            yield " ".join(head + songs[:i] + songs[i + 1:])
-    # shorten songs: drop a line, halve a line
-    for i, s in enumerate(songs):
-        if not s.startswith("M:"):
-            continue
-        text = bytes.fromhex(s[2:]).decode("utf-8", "replace")
-        lines = text.split("\n")
-        for j in range(len(lines)):
-            if lines[j]:
-                yield " ".join(head + songs[:i] + [mtok("\n".join(lines[:j] + lines[j + 1:]))] + songs[i + 1:])
-        for j in range(len(lines)):
-            w = lines[j].split(" ")
-            if len(w) > 3:
-                for half in (w[: len(w) // 2], w[:1] + w[len(w) // 2:]):
-                    cut = " ".join(half)
-                    if cut.count("[") == cut.count("]"):
-                        yield " ".join(head + songs[:i] + [mtok("\n".join(lines[:j] + [cut] + lines[j + 1:]))] + songs[i + 1:])
-    # fewer fill variants
+    n = 0
     for i, t in enumerate(head):
         if t.startswith(("F:", "P:")) and "," in t:
             vals = t[2:].split(",")
             for k in range(len(vals)):
                 yield " ".join(head[:i] + [t[:2] + ",".join(vals[:k] + vals[k + 1:])] + head[i + 1:] + songs)
+    for i in range(len(songs)):
+        if len(songs) > 1:
+            yield " ".join(head + songs[:i] + songs[i + 1:])
+    for i, s in enumerate(songs):
+        if not s.startswith("M:"):
+            continue
+        text = bytes.fromhex(s[2:]).decode("utf-8", "replace")
+        lines = text.split("\n")
+        # halves of the line list first, then single lines, then halves of long lines
+        if len(lines) > 3:
+            for part in (lines[: len(lines) // 2], lines[len(lines) // 2:]):
+                yield " ".join(head + songs[:i] + [mtok("\n".join(part) + "\n")] + songs[i + 1:])
+        for j in range(len(lines)):
+            if lines[j] and n < 40:
+                n += 1
+                yield " ".join(head + songs[:i] + [mtok("\n".join(lines[:j] + lines[j + 1:]))] + songs[i + 1:])
+        for j in range(len(lines)):
+            w = lines[j].split(" ")
+            if len(w) > 3 and n < 80:
+                for half in (w[: len(w) // 2], w[:1] + w[len(w) // 2:]):
+                    cut = " ".join(half)
+                    if cut.count("[") == cut.count("]"):
+                        n += 1
+                        yield " ".join(head + songs[:i] + [mtok("\n".join(lines[:j] + [cut] + lines[j + 1:]))] + songs[i + 1:])
 
 
 RULE = ("lists of 1..5 MML/IR songs (shipped samples and excerpts, named songs for every mechanism: loop breaks, subroutines, drum mode, "
